@@ -289,31 +289,33 @@ Definition dsl_callback (ev : dsl_evaluator) (st : dsl_store) (f : dsl_val) (arg
   | _ => dsl_err DkType st
   end.
 
-(* range-for over the live std::vector while calling back: if the callback changed the length the
-   iterators are invalid (F-C15-c).  filter/any/all test the callback's result with `if (Value)`, which is
-   the conversion to double (not ToBool): a non-numeric string or a container result is an error. *)
+(* Array#map/filter/any/all (after fix 2c1ef52): index based, the length is re-read on every iteration, so a callback
+   that resizes the array is well defined (and may loop forever: loop budget L).  filter/any/all test the callback's
+   result with `if (Value)`, which is the conversion to double (not ToBool): a non-numeric string or a container
+   result is an error. *)
 Inductive dsl_itermode := DiMap | DiFilter | DiAny | DiAll.
 
-Fixpoint dsl_iter (ev : dsl_evaluator) (mode : dsl_itermode) (f : dsl_val) (l : nat) (n0 : nat) (todo : nat) (i : nat) (st : dsl_store)
+Fixpoint dsl_iter (ev : dsl_evaluator) (mode : dsl_itermode) (f : dsl_val) (l : nat) (L : nat) (i : nat) (st : dsl_store)
          (acc : list dsl_val) : dsl_res * dsl_store * list dsl_val * bool :=
-  match todo with
-  | O => (DrVal DvEmpty, st, acc, false)
-  | S todo' =>
-      let item := nth i (dsl_arr st l) DvEmpty in
+  match L with
+  | O => (DrAbort DaFuel, st, acc, false)
+  | S L' =>
+      let xs := dsl_arr st l in
+      if Nat.leb (List.length xs) i then (DrVal DvEmpty, st, acc, false)
+      else
+      let item := nth i xs DvEmpty in
       match dsl_callback ev st f [item] with
       | (DrVal r, st1) =>
-          if negb (Nat.eqb (List.length (dsl_arr st1 l)) n0) then (DrAbort DaCrashIter, st1, acc, false)
-          else
             match mode with
-            | DiMap => dsl_iter ev mode f l n0 todo' (S i) st1 (r :: acc)
+            | DiMap => dsl_iter ev mode f l L' (S i) st1 (r :: acc)
             | _ =>
                 match dsl_to_double st1 r with
                 | PrVal (DvNum m _) =>
                     let t := negb (m =? 0) in
                     match mode with
-                    | DiFilter => dsl_iter ev mode f l n0 todo' (S i) st1 (if t then item :: acc else acc)
-                    | DiAny => if t then (DrVal DvEmpty, st1, acc, true) else dsl_iter ev mode f l n0 todo' (S i) st1 acc
-                    | _ => if t then dsl_iter ev mode f l n0 todo' (S i) st1 acc else (DrVal DvEmpty, st1, acc, true)
+                    | DiFilter => dsl_iter ev mode f l L' (S i) st1 (if t then item :: acc else acc)
+                    | DiAny => if t then (DrVal DvEmpty, st1, acc, true) else dsl_iter ev mode f l L' (S i) st1 acc
+                    | _ => if t then dsl_iter ev mode f l L' (S i) st1 acc else (DrVal DvEmpty, st1, acc, true)
                     end
                 | PrVal _ => (DrAbort DaDomain, st1, acc, false)
                 | PrErr k => (DrErr k, st1, acc, false)
@@ -349,22 +351,22 @@ Definition dsl_native_call (ev : dsl_evaluator) (L : nat) (st : dsl_store) (n : 
                 let n0 := List.length xs in
                 match n with
                 | DnArrMap =>
-                    match dsl_iter ev DiMap f l n0 n0 0 st [] with
+                    match dsl_iter ev DiMap f l L 0 st [] with
                     | (DrVal _, st1, acc, _) => dsl_new_arr st1 (rev acc)
                     | (o, st1, _, _) => (o, st1)
                     end
                 | DnArrFilter =>
-                    match dsl_iter ev DiFilter f l n0 n0 0 st [] with
+                    match dsl_iter ev DiFilter f l L 0 st [] with
                     | (DrVal _, st1, acc, _) => dsl_new_arr st1 (rev acc)
                     | (o, st1, _, _) => (o, st1)
                     end
                 | DnArrAny =>
-                    match dsl_iter ev DiAny f l n0 n0 0 st [] with
+                    match dsl_iter ev DiAny f l L 0 st [] with
                     | (DrVal _, st1, _, stopped) => (DrVal (DvBool stopped), st1)
                     | (o, st1, _, _) => (o, st1)
                     end
                 | DnArrAll =>
-                    match dsl_iter ev DiAll f l n0 n0 0 st [] with
+                    match dsl_iter ev DiAll f l L 0 st [] with
                     | (DrVal _, st1, _, stopped) => (DrVal (DvBool (negb stopped)), st1)
                     | (o, st1, _, _) => (o, st1)
                     end
@@ -695,9 +697,6 @@ Definition dsl_show_res (o : dsl_out) : string :=
   | DrAbort DaFuel => "abort:fuel"
   | DrAbort DaDomain => "abort:domain"
   | DrAbort DaCycle => "abort:cycle"
-  | DrAbort DaCrashNull => "abort:crashnull"
-  | DrAbort DaCrashIter => "abort:crashiter"
-  | DrAbort DaCrashFpe => "abort:crashfpe"
   end.
 
 Definition dsl_observe (o : dsl_out) : list string :=
